@@ -260,6 +260,18 @@ def r3(repo, run):
         run.ok('C16.R3', pv, 'missing target: raises KeyError')
 
 
+def r3c(repo, run):
+    """lookups that answer None for a missing node are tested with `is None`, never by truth value: the previous value of a path may
+    be an empty list / mapping, 0, '', null or false and still has to be moved / extended"""
+    from .. import shared
+    n = 0
+    for fi, t, name, lookup in shared.lookup_truthiness(repo):
+        n += 1
+        run.violation('C16.R3', fi, 'truth test of `%s` (result of %s)' % (name, lookup), 'the node found by %s is tested by truth value: a node that exists but is empty or holds 0 / \'\' / null / false is treated as missing (`q: !prev p` with `p: []` fails, an empty list is not extended)' % lookup, node=t)
+    if not n:
+        run.ok('C16.R3', repo.func('PrevNode.ayns.on_premerge_impl'), 'no lookup result is tested by truth value (package-wide)')
+
+
 def r4(repo, run):
     fi = repo.func('ConfigList.extend')
     src = fi.params()[1]
@@ -342,6 +354,7 @@ def check(repo, run, tier):
     g(r2, repo, run)
     g(pr.no_unpacked_list_paths, repo, run, 'C16.R2b')
     g(r3, repo, run)
+    g(r3c, repo, run)
     g(r4, repo, run)
     g(r5, repo, run)
     g(unitrules.list_operator_init, repo, run, 'C16.R6')
@@ -364,6 +377,7 @@ def mutants(repo):
                "            def remove_fn(node, component):\n                return node.ayns.remove_child(component)\n\n            return ComposedNode.ayns._remove_node(self, remove_fn, *path)", "            return ComposedNode.ayns._remove_node(self, ComposedNode.ayns.remove_child, *path)"), ['C16.R2']),
         Mutant('extend-deduplicates', lambda r: in_func(r, 'ExtendNode.ayns.on_premerge_impl', "node.extend(self)", "node.extend([child for child in self if child not in node])"), ['C16.R3']),
         Mutant('append-prepends', lambda r: in_func(r, 'AppendNode.ayns.on_premerge_impl', "        node.extend(self)\n        return node", "        self.extend(node)\n        return self"), ['C16.R3']),
+        Mutant('prev-existence-by-truth-value', lambda r: in_func(r, 'PrevNode.ayns.on_premerge_impl', "        if node is None:", "        if not node:"), ['C16.R3']),
         Mutant('append-missing-target-tolerated', lambda r: in_func(r, 'AppendNode.ayns.on_premerge_impl', "        if node is None:\n            raise KeyError(f'Node {path!r} does not exist in the previous context (possibly deleted?)')\n", "        if node is None:\n            return ConfigList(self)\n"), ['C16.R3']),
         Mutant('list-extend-reversed', lambda r: in_func(r, 'ConfigList.extend', "for val in other:", "for val in reversed(list(other)):"), ['C16.R4']),
         Mutant('premerge-skips-new-subtrees', lambda r: in_func(r, 'ComposedNode.ayns.on_premerge_impl', "            return self.ayns.map_nodes(lambda child_path, node: node.ayns.on_premerge(child_path, into)",
